@@ -40,6 +40,19 @@ pub use crate::mainline_dht::{DhtBuilder, MainlineDht};
 
 pub type IpVersion = crate::action::IpVersion;
 
+/// Verification hook (guarded by `--cfg btdht_verif`): re-exports of internal types so that an
+/// external harness can drive them directly, plus the virtual clock.
+#[cfg(btdht_verif)]
+pub mod verif {
+    pub use crate::bucket::Bucket;
+    pub use crate::node::{Node, NodeHandle, NodeStatus};
+    pub use crate::storage::AnnounceStorage;
+    pub use crate::table::{leading_bit_count, RoutingTable};
+    pub use crate::time::verif_clock;
+    pub use crate::token::{Token, TokenStore};
+    pub use crate::transaction::{AIDGenerator, ActionID, MIDGenerator, TransactionID};
+}
+
 use async_trait::async_trait;
 use std::{io, net::SocketAddr};
 
